@@ -61,6 +61,19 @@ def run(ctx):
             for box in ("offset", "fixed", "opt_outside", "tight", "half_lo"):
                 for _ in range(6 if ctx.thorough else 2):
                     ps.append(problems.gen_problem(rng, A, alg_name=nm, box=box))
+        # long runs with the optimum ON a bound (or outside the box): subdivision / trust-region / simplex sizes shrink to rounding level
+        # next to the bound, which is where "x + step" rounds past it
+        for nm in problems.ALL:
+            if nm == "NLOPT_LN_NEWUOA":
+                continue
+            for rep in range(6 if ctx.thorough else 2):
+                p = problems.gen_problem(rng, A, alg_name=nm, box="opt_outside", with_constraints=False, maxeval=(3000 if nm in problems.GLOBAL else 600), n=rng.choice([1, 2, 3]) if nm not in ("NLOPT_LN_NEWUOA_BOUND", "NLOPT_LN_BOBYQA") else 2)
+                for k in ("stopval", "maxtime", "clockq", "clock0", "ftol_rel", "xtol_abs"):
+                    p.pop(k, None)
+                p["xtol_rel"] = rng.choice([1e-3, 1e-10])
+                p["obj"] = rng.choice([0, 1, 3])
+                p["quietx"] = 0
+                ps.append(p)
         batch = runcheck.run_batch(ctx, bdir, A, ps, [monitors.mon_in_box], "all algorithms")
         glue_correspondence(ctx, batch)
         ctx.sample({"spec": batch[0][1].spec})
